@@ -4,7 +4,7 @@ import ast
 from rules import observers
 from sa.deps import Facts, names_in, pseudo
 from sa.loader import AnalysisError, FuncInfo, own_nodes
-from sa.model import norm_compare, row_loops, rowloop_signature, u, where
+from sa.model import alpha_text, norm_compare, row_loops, rowloop_signature, u, where
 from sa.paths import FALL, RAISE, RETURN, Enumerator, path_nodes
 from sa.pattern import find_expr, find_stmt, has_expr, has_stmt, match_expr, match_stmt
 
@@ -14,7 +14,7 @@ SQL = 'dataflows.processors.dumpers.to_sql'
 def check(ctx):
     run, repo, res = ctx.run, ctx.repo, ctx.res
     sd = repo.cls(SQL + ':SQLDumper')
-    pr = sd.methods['process_resource']
+    pr = ctx.N(sd.methods['process_resource'], keep=('get_output_row', 'normalize_for_engine', 'normalize_schema_for_engine'))
     run.rule('R23', 'MODE-SIGNATURE(sql): the existing table is deleted only when mode == rewrite and it exists; the table is created only '
                     'when it does not exist (after a possible delete); update keys are passed only in update mode, defaulting to the '
                     'primary key; resources that are not mapped to a table pass through untouched')
@@ -63,16 +63,40 @@ def check(ctx):
             run.check(bool(nonnull) == bool(update), 'R23', pr.where, pr.qualname, 'update_keys set iff mode == update: ' + str(update),
                       'rows are matched by key in a mode other than update, or update mode writes without keys')
             if update:
-                none_test = g.get('update_keys is None')
+                # the key variable may carry another name inside an inlined helper: any `<k> is None` test on a name that was
+                # assigned from <resource config>.get('update_keys')
+                knames = {pseudo(x.targets[0]) for x in nodes if isinstance(x, ast.Assign) and pseudo(x.targets[0])
+                          and match_expr("__C.get('update_keys')", x.value) is not None}
+                none_test = any(pol for t, pol in [norm_compare(t, pol) for t, pol in p.guards()]
+                                if isinstance(t, ast.Compare) and isinstance(t.ops[0], ast.Is) and pseudo(t.left) in knames
+                                and isinstance(t.comparators[0], ast.Constant) and t.comparators[0].value is None)
+                run.check(len(knames) == 1, 'R23', pr.where, pr.qualname, "update keys read from the resource configuration",
+                          'update mode does not take the configured update_keys')
                 if none_test:
-                    fb = [x for x in nonnull if "schema_descriptor.get('primaryKey'" in u(x.value)]
+                    fb = [x for x in nodes if isinstance(x, ast.Assign) and pseudo(x.targets[0]) in knames
+                          and (match_expr("__S.get('primaryKey', [])", x.value) is not None or
+                               match_expr("__S.get('primaryKey') or []", x.value) is not None)]
                     run.check(len(fb) == 1, 'R23', pr.where, pr.qualname, "update keys default to the primary key",
                               'without explicit update_keys the primary key is not used')
         else:
             run.fail('R23', pr.where, pr.qualname, 'storage.write on the mapped path', 'rows of a mapped resource are not written')
         # the returned stream is map(get_output_row, storage.write(...))
-        ok = len(rets) == 1 and isinstance(rets[0].value, ast.Call) and u(rets[0].value.func) == 'map' and \
-            u(rets[0].value.args[0]) == 'self.get_output_row' and wrs and rets[0].value.args[1] is wrs[0]
+        def through(e):
+            # a name in between: the (single) assignment to it on this path
+            for _ in range(3):
+                if isinstance(e, ast.Name):
+                    a_ = [x for x in nodes if isinstance(x, ast.Assign) and pseudo(x.targets[0]) == e.id]
+                    if len(a_) != 1:
+                        break
+                    e = a_[0].value
+            return e
+        rv = through(rets[0].value) if len(rets) == 1 and rets[0].value is not None else None
+        ok = isinstance(rv, ast.Call) and u(rv.func) == 'map' and len(rv.args) == 2 and \
+            u(rv.args[0]) == 'self.get_output_row' and bool(wrs) and through(rv.args[1]) is wrs[0]
+        if ok:
+            rows_arg = through(wrs[0].args[1]) if len(wrs[0].args) > 1 else None
+            ok = isinstance(rows_arg, ast.Call) and u(rows_arg.func) == 'self.normalize_for_engine' and \
+                any(pseudo(a) == pr.params[1] for a in rows_arg.args)
         run.check(ok, 'R23', pr.where, pr.qualname, 'return map(self.get_output_row, storage.write(...))',
                   'rows do not continue downstream from the writer')
     run.floor('R23', n, 4, 'mode paths')
@@ -82,22 +106,37 @@ def check(ctx):
 
     run.rule('R12', 'ROW-LOOP-SHAPE(sql): rows continue downstream as the written row object with only the two optional flag columns '
                     'stored; the flags carry the storage\'s updated / updated_id answers')
-    go = sd.methods['get_output_row']
-    facts = Facts(go, include_nested=False)
-    stores = [x for x in own_nodes(go.node) if isinstance(x, ast.Assign) and isinstance(x.targets[0], ast.Subscript)]
-    okg = True
-    for x in stores:
-        key = pseudo(x.targets[0].slice)
-        cond = x._parent
-        okg = okg and isinstance(cond, ast.If) and pseudo(cond.test) == key and key in ('self.updated_column', 'self.updated_id_column')
-        want = 'updated' if key == 'self.updated_column' else 'updated_id'
-        okg = okg and pseudo(x.value) == want
-    rets = [x for x in own_nodes(go.node) if isinstance(x, ast.Return)]
-    okg = okg and len(stores) == 2 and len(rets) == 1 and pseudo(rets[0].value) == 'row' and \
-        has_stmt('row, updated, updated_id = (_w.row, _w.updated, _w.updated_id)', go.node)
+    from sa.pathvals import PathValues
+    go = ctx.N(sd.methods['get_output_row'])
+    w_ = go.params[1]
+    okg, n_paths = True, 0
+    flags = {'self.updated_column': '%s.updated' % w_, 'self.updated_id_column': '%s.updated_id' % w_}
+    for p in Enumerator(where=go.qualname).paths(go.node.body):
+        pv = PathValues(p)
+        n_paths += 1
+        on = {}
+        for t, pol in pv.guards:
+            t, pol = norm_compare(t, pol)
+            if pseudo(t) in flags:
+                on[pseudo(t)] = pol
+            else:
+                okg = False
+        stores = {}
+        for orig, st in pv.stmts:
+            if isinstance(st, ast.Assign) and isinstance(st.targets[0], ast.Subscript):
+                # the target's base is read (Load) inside a Store subscript: substituted as well
+                base_, key_ = u(st.targets[0].value), pseudo(st.targets[0].slice)
+                okg = okg and base_ == '%s.row' % w_ and key_ in flags and key_ not in stores
+                stores[key_] = u(st.value)
+            elif not (isinstance(st, ast.Expr) and isinstance(st.value, ast.Constant)):
+                okg = False
+        for k_, want in flags.items():
+            okg = okg and ((stores.get(k_) == want) if on.get(k_) else k_ not in stores) and k_ in on
+        okg = okg and len(pv.returns) == 1 and u(pv.returns[0]) == '%s.row' % w_
+    okg = okg and n_paths == 4
     run.check(okg, 'R12', go.where, go.qualname, 'row[updated_column] = updated; row[updated_id_column] = updated_id; return row',
               'the downstream row is not the written row with truthful updated flags')
-    ne = sd.methods['normalize_for_engine']
+    ne = ctx.N(sd.methods['normalize_for_engine'])
     rl = row_loops(ne)
     if len(rl) != 1:
         raise AnalysisError('normalize_for_engine: row loop not found')
@@ -109,17 +148,32 @@ def check(ctx):
     stores = [x for x in ast.walk(loop) if isinstance(x, ast.Assign) and isinstance(x.targets[0], ast.Subscript)
               and pseudo(x.targets[0].value) == var]
     for x in stores:
-        run.fail('R12', where(repo, x), ne.qualname, x,
+        run.fail('R12', where(repo, x), ne.qualname, alpha_text(x, ne.node),
                  'array / object values are converted to their database representation in place, in the very row objects that '
                  'continue downstream: with sqlite a downstream step sees \'[1, 2]\' (a JSON string) instead of [1, 2]')
     # actions only for array / object fields
     body = u(ne.node)
-    run.check(len(find_stmt("if _f['type'] in ['array', 'object']:\n    ...\n    _a.setdefault(_f['name'], []).extend(OBJECT_FIXERS[_d])", ne.node)) == 1,
+    run.check(len(find_stmt("if _f['type'] in ['array', 'object']:\n    ...\n    _a.setdefault(_f['name'], []).extend(OBJECT_FIXERS[_d])", ne.node)) +
+              len(find_stmt("if _f['type'] in ('array', 'object'):\n    ...\n    _a.setdefault(_f['name'], []).extend(OBJECT_FIXERS[_d])", ne.node)) +
+              len(find_stmt("if _f['type'] in ['object', 'array']:\n    ...\n    _a.setdefault(_f['name'], []).extend(OBJECT_FIXERS[_d])", ne.node)) +
+              len(find_stmt("if _f['type'] in ('object', 'array'):\n    ...\n    _a.setdefault(_f['name'], []).extend(OBJECT_FIXERS[_d])", ne.node)) == 1,
               'R12', ne.where, ne.qualname, 'fixers only for array / object fields', 'other field types are rewritten for the engine')
     from rules import independence
-    independence.r28_functions(ctx, [(SQL + ':SQLDumper.normalize_for_engine', {})])
-    ns = sd.methods['normalize_schema_for_engine']
-    run.check(has_stmt('_s = copy.deepcopy(_s)', ns.node), 'R12', ns.where, ns.qualname, 'engine schema is a deep copy',
+    independence.r28_functions(ctx, [(ne, {})])
+    ns = ctx.N(sd.methods['normalize_schema_for_engine'])
+    sch = ns.params[2]
+    copies = find_stmt('_c = copy.deepcopy(%s)' % sch, ns.node)
+    okc = len(copies) == 1
+    if okc:
+        cname = copies[0][1]['_c']
+        first = copies[0][0]
+        rets_ = [x for x in own_nodes(ns.node) if isinstance(x, ast.Return)]
+        okc = len(rets_) == 1 and pseudo(rets_[0].value) == cname and ns.node.body.index(first) == \
+            min(i for i, st_ in enumerate(ns.node.body) if not (isinstance(st_, ast.Expr) and isinstance(st_.value, ast.Constant)))
+        # if the copy has its own name, the parameter is not touched afterwards
+        if okc and cname != sch:
+            okc = not any(isinstance(x, ast.Name) and x.id == sch for st_ in ns.node.body if st_ is not first for x in ast.walk(st_))
+    run.check(okc, 'R12', ns.where, ns.qualname, 'engine schema is a deep copy',
               'the emitted schema itself is rewritten for the engine (downstream sees string instead of array/object)')
     run.trusted += ['tableschema-sql Storage.write(as_generator=True) yields one WrittenRow(row, updated, updated_id) per input row, in order']
     run.not_decided += ['the table contents (tableschema-sql semantics of delete / create / write with update keys)',
